@@ -655,6 +655,7 @@ func (c *wsConn) removeCount(s *Subscription, direct bool, sent bool, count int,
 }
 
 func (c *wsConn) setToken(token json.RawMessage, tid string) {
+	verifNote("token", "cid", c.cid, "had", c.token != nil)
 	c.tid = tid
 
 	if c.token == nil {
@@ -683,6 +684,7 @@ func (c *wsConn) outputWorker() {
 		for len(c.queue) > idx {
 			f = c.queue[idx]
 			c.mu.Unlock()
+			verifGate("conn", c.cid)
 			f()
 			idx++
 			c.mu.Lock()
